@@ -20,8 +20,11 @@ from typing import Any, Dict, List, Optional
 VERIF = os.path.dirname(os.path.dirname(os.path.abspath(__file__)))
 REPO = os.environ.get("DATASHARD_REPO", "/repo")
 SPEC = os.path.join(VERIF, "spec")
-EVIDENCE = os.path.join(VERIF, "evidence")
-REPLAYS = os.path.join(VERIF, "replays")
+# VERIF_OUT_DIR redirects evidence/replays (used only by mutation self-tests so they do not
+# clobber the evidence of the real tree)
+_OUT = os.environ.get("VERIF_OUT_DIR", VERIF)
+EVIDENCE = os.path.join(_OUT, "evidence")
+REPLAYS = os.path.join(_OUT, "replays")
 KNOWN_FINDINGS = os.path.join(VERIF, "known_findings.json")
 GUARD = "DATASHARD_VERIF"
 
@@ -70,10 +73,18 @@ def digest(obj: Any) -> str:
 
 
 def load_known_findings() -> Dict[str, Any]:
-    if not os.path.exists(KNOWN_FINDINGS):
-        return {"open": [], "fixed": []}
-    with open(KNOWN_FINDINGS) as f:
-        return json.load(f)
+    """known_findings.json plus (while checks are being built in parallel) known_findings.d/*.json."""
+    out: Dict[str, Any] = {"open": [], "fixed": []}
+    paths = [KNOWN_FINDINGS] if os.path.exists(KNOWN_FINDINGS) else []
+    ddir = os.path.join(VERIF, "known_findings.d")
+    if os.path.isdir(ddir):
+        paths += sorted(os.path.join(ddir, f) for f in os.listdir(ddir) if f.endswith(".json"))
+    for p in paths:
+        with open(p) as f:
+            d = json.load(f)
+        out["open"] += d.get("open", [])
+        out["fixed"] += d.get("fixed", [])
+    return out
 
 
 class Ctx:
